@@ -248,11 +248,13 @@ func spell(c valueCtx, vc string, rng *rand.Rand, kw string, usedVars map[string
 		}
 		return `"#` + pl + `"`, nil
 	case "brace":
-		switch rng.Intn(3) {
-		case 0:
+		switch rng.Intn(5) {
+		case 0, 1:
 			return `"{` + pl + `}"`, nil
-		case 1:
+		case 2:
 			return `"` + pl + `}{"`, nil
+		case 3:
+			return `"{$UNTERMINATED` + pl + `"`, nil // placeholder look-alike: Compile reports it, before and after fmt
 		default:
 			return `"{}"`, nil
 		}
@@ -322,11 +324,13 @@ func spell(c valueCtx, vc string, rng *rand.Rand, kw string, usedVars map[string
 	case "kwq":
 		return `"` + kw + `"`, nil
 	case "uni":
-		switch rng.Intn(3) {
+		switch rng.Intn(4) {
 		case 0:
 			return pl + "é✓", nil
 		case 1:
 			return "ü" + pl, nil
+		case 2:
+			return pl + `\'x;=` + "ñ", nil // bare tokens may carry any character but blank { } " #
 		default:
 			return `"` + pl + ` → ß"`, nil
 		}
